@@ -178,7 +178,47 @@ def all_cases():
   return cases
 
 
+# a TypeError raised by the call itself because positional parameters were supplied by nobody: the message still
+# says which configurable, in which scope (a table on the real code)
+MISSING_CASES = [{'dom': 'exc', 'kind': 'missing', 'nargs': na, 'scope': sc, 'via': via, 'bound': bound}
+                 for na in (0, 1) for sc in ('sc', 'sc/inner', '') for via in ('call', 'reference')
+                 for bound in (False, True)]
+
+
+def run_missing_case(case):
+  gin = core.fresh_gin()
+  g = {'__name__': 'em'}
+  exec('def needs(a, b, c=0):\n  return (a, b, c)\ndef consumer(v=None):\n  return v\n', g)  # pylint: disable=exec-used
+  needs = gin.configurable(g['needs'])
+  consumer = gin.configurable(g['consumer'])
+  if case['bound']:
+    gin.bind_parameter('em.needs.c', 5)    # something is bound, but not what is missing
+  facts = {}
+  import contextlib
+  try:
+    with contextlib.ExitStack() as st:
+      if case['scope']:
+        st.enter_context(gin.config_scope(case['scope']))
+      if case['via'] == 'reference':
+        gin.parse_config('em.consumer.v = @em.needs()')
+        consumer()
+      else:
+        needs(*([1] * case['nargs']))
+    facts['raised'] = None
+  except TypeError as e:
+    s = str(e)
+    facts['raised'] = 'TypeError'
+    facts['names_configurable'] = "In call to configurable 'needs'" in s
+    facts['names_scope'] = (f"in scope '{case['scope']}'" in s) if case['scope'] else True
+    facts['msg'] = s[:400]
+  except Exception as e:  # pylint: disable=broad-except
+    facts['raised'] = type(e).__name__
+    facts['msg'] = str(e)[:300]
+  return {'facts': facts, 'orig': {}, 'is_exception': True}
+
+
 def gen_cases(rng, tier, boost=1):
+  yield from MISSING_CASES
   base = all_cases()
   for c in base:
     for depth in ([1, 3] if tier == 'quick' else [1, 2, 3]):
@@ -225,6 +265,8 @@ def public_attrs(exc, gin, names=None):
 
 
 def run_impl(case):
+  if case.get('kind') == 'missing':
+    return run_missing_case(case)
   gin = core.fresh_gin()
   cls, exc = _make(case)
   g = {'__name__': 'em', 'gin': gin, 'EXC': exc}
@@ -302,6 +344,8 @@ def to_driver(case, impl):
 
 
 def compare(case, impl, model):
+  if case.get('kind') == 'missing':
+    return None
   if 'attrs' not in model:
     return f'driver error: {model}'
   if not impl['is_exception']:
@@ -315,6 +359,14 @@ def compare(case, impl, model):
 
 
 def oracle(case, impl):
+  if case.get('kind') == 'missing':
+    f = impl['facts']
+    if f.get('raised') != 'TypeError':
+      return f'a call with positional parameters nobody supplied raised {f.get("raised")}: {f.get("msg")}'
+    if not f.get('names_configurable') or not f.get('names_scope'):
+      return (f'TypeError for unsupplied positional parameters ({case["via"]}, scope {case["scope"]!r}): the message does not '
+              f'name the configurable and the active scope: {f.get("msg")!r}')
+    return None
   if impl.get('caught', 'x') is None:
     return 'no exception reached the caller'
   if not impl['is_exception']:
@@ -352,10 +404,15 @@ def oracle(case, impl):
 
 
 def nontrivial(case, impl):
+  if case.get('kind') == 'missing':
+    return True
   return len([k for k in impl.get('orig', {}) if k != 'args']) >= 1 or case['user']
 
 
 def tally(stats, case, impl):
+  if case.get('kind') == 'missing':
+    stats['missing_positional'] = stats.get('missing_positional', 0) + 1
+    return
   stats['classes'] = stats.get('classes', 0) + 1
   k = 'via:' + case['via'] + ':depth%d' % case['depth']
   stats[k] = stats.get(k, 0) + 1
